@@ -200,3 +200,55 @@ func audioPair(c *rig.Ctx) {
 		c.Case(rig.Hash(pa.Hash, pb.Hash, uint64(frames)))
 	})
 }
+
+// samePath: an instance is made from the file it is given at the time it is made. Another image
+// of the same length is written to a path an earlier instance was loaded from (same name, same
+// size, the modification time put back to what it was): the new instance must behave as it does
+// when it is loaded from a path nobody has used before - whether the earlier instance is still
+// alive or not.
+func samePath(c *rig.Ctx) {
+	c.Require("same_path_cases")
+	c.Part("same-path", c.N(8, 48), func(i int64, r *rig.Rng) {
+		pa := prog.Generate(r, prog.Options{Hardware: true, Serial: true, CartType: 0})
+		pb := prog.Generate(r, prog.Options{Hardware: true, Interrupts: true, CartType: 0})
+		if i%3 == 2 {
+			pb = prog.Sprites(r)
+		}
+		n := 30000 + r.Intn(30000)
+		okA, _ := emu.Screen(emu.Scenario{ROM: pa.ROM, Frames: 4})
+		okB, _ := emu.Screen(emu.Scenario{ROM: pb.ROM, Frames: 4})
+		if !okA || !okB || len(pa.ROM) != len(pb.ROM) {
+			c.Count("same_path_programs_screened_out", 1)
+			return
+		}
+		fresh := emu.TempROM(pb.ROM, "c25sf")
+		defer os.Remove(fresh)
+		want := solo(fresh, n)
+		path := emu.TempROM(pa.ROM, "c25sp")
+		defer os.Remove(path)
+		st, err := os.Stat(path)
+		if err != nil {
+			panic(err)
+		}
+		earlier := newInst(path)
+		for k := 0; k < 5000; k++ {
+			earlier.step()
+		}
+		if err := os.WriteFile(path, pb.ROM, 0o644); err != nil {
+			panic(err)
+		}
+		os.Chtimes(path, st.ModTime(), st.ModTime())
+		got := solo(path, n)
+		if i%2 == 0 {
+			for k := 0; k < 1000; k++ {
+				earlier.step() // (the earlier instance lives on meanwhile)
+			}
+		}
+		if ok, at := equal(got, want); !ok {
+			c.Violate("instance-from-a-reused-path", fmt.Sprintf("an instance loaded from a file whose contents were replaced (same name, length and modification time as when an earlier instance was loaded from it) differs at probe %d from the same image loaded from a fresh path: it does not run the image that is in the file", at), nil)
+			return
+		}
+		c.Count("same_path_cases", 1)
+		c.Case(rig.Hash(pa.Hash, pb.Hash, uint64(n)))
+	})
+}
